@@ -658,6 +658,8 @@ def run(ctx, only_cases=None):
         "answered as when alone) and relay (a REAL UDPRelay on 127.0.0.1: a datagram parked in tunnel set-up while later datagrams arrive "
         "must be forwarded with its own DATA bytes — this is what justifies accepting parseUDPHeader's sub-slice payload); rounds in which "
         "a loopback datagram does not arrive within 2 s are counted inconclusive, never failed",
+        "the size of readLoop's receive buffer (datagram truncation by the kernel) is outside the model: large datagrams (up to 65507 bytes) "
+        "are sent through the real relay by the relay cases and the forwarded payload is compared byte for byte (harness only)",
         "host names longer than 255 bytes are not given to buildUDPHeader (its callers pass hosts obtained from parseUDPHeader)",
     ]
     if broken is not None:
